@@ -23,8 +23,39 @@ pub enum Origin {
 /// a protected header for structure tests: its model, and the coset value (either built or decoded)
 pub fn gen_prot_variant(ctx: &mut Ctx, origin: Origin) -> MProt {
     let o = if origin == Origin::Built { GenOpts::built() } else { GenOpts { styled_prot: 255, built: false, max_depth: 2 } };
-    let mut header = match ctx.rng.below(8) {
+    let mut header = match ctx.rng.below(10) {
         0 => MHeader::default(),
+        8 => {
+            // exactly one field, holding a "default-looking" value (zero / reserved / one byte)
+            let mut h = MHeader::default();
+            match ctx.rng.below(8) {
+                0 => h.alg = Some(crate::model::MLabel::Int(0)),
+                1 => h.crit = vec![crate::model::MLabel::Int(0)],
+                2 => h.ct = Some(crate::model::MLabel::Int(0)),
+                3 => h.kid = vec![0],
+                4 => h.iv = vec![0],
+                5 => h.piv = vec![0],
+                6 => h.alg = Some(crate::model::MLabel::Text(String::new())),
+                _ => h.rest = vec![(crate::model::MLabel::Int(0), Item::Null)],
+            }
+            h
+        }
+        9 => {
+            // exactly one random field
+            let full = gen::gen_header(&mut ctx.rng, &o, 2);
+            let mut h = MHeader::default();
+            match ctx.rng.below(8) {
+                0 => h.alg = full.alg.or(Some(crate::model::MLabel::Int(-7))),
+                1 => h.crit = if full.crit.is_empty() { vec![crate::model::MLabel::Int(4)] } else { full.crit },
+                2 => h.ct = full.ct.or(Some(crate::model::MLabel::Int(60))),
+                3 => h.kid = if full.kid.is_empty() { vec![1] } else { full.kid },
+                4 => h.iv = if full.iv.is_empty() { vec![2] } else { full.iv },
+                5 => h.piv = if full.piv.is_empty() { vec![3] } else { full.piv },
+                6 => h.csigs = if full.csigs.is_empty() { vec![crate::model::MSignature::default()] } else { full.csigs },
+                _ => h.rest = if full.rest.is_empty() { vec![(crate::model::MLabel::Text("x".into()), Item::int(1))] } else { full.rest },
+            }
+            h
+        }
         1 => {
             // only counter signatures
             let mut h = MHeader::default();
@@ -483,6 +514,95 @@ pub fn c03_decoded_case(ctx: &mut Ctx, body: &MProt, signer: &MProt, aad: &[u8],
             }
         }
         _ => ctx.count("decoded-sign-rejected"),
+    }
+}
+
+/// A counter signature decoded from the wire inside a header: the general structure function with
+/// the CounterSignature context must carry the counter signature's received protected bytes.
+pub fn c03_decoded_countersig_case(ctx: &mut Ctx, body: &MProt, cs_prot: &MProt, aad: &[u8], payload: &[u8]) {
+    let pb = model::prot_slot(body);
+    let ps = model::prot_slot(cs_prot);
+    let cb = match coset_prot(body) {
+        Some(x) => x,
+        None => return,
+    };
+    let sig_item = Item::Array(vec![Item::Bytes(ps.clone()), Item::Map(vec![]), Item::Bytes(vec![7])]);
+    let nested = Item::Array(vec![Item::Bytes(vec![]), Item::Map(vec![(Item::int(7), sig_item.clone())]), Item::Bytes(vec![8])]);
+    // positions: directly in a header; as second of two; one level further down (counter signature
+    // on a counter signature); inside a protected header
+    let headers: Vec<(Item, Box<dyn Fn(&coset::Header) -> Option<coset::ProtectedHeader>>)> = vec![
+        (Item::Map(vec![(Item::int(7), sig_item.clone())]), Box::new(|h: &coset::Header| h.counter_signatures.first().map(|c| c.protected.clone()))),
+        (Item::Map(vec![(Item::int(7), Item::Array(vec![Item::Array(vec![Item::Bytes(vec![]), Item::Map(vec![]), Item::Bytes(vec![])]), sig_item.clone()]))]), Box::new(|h: &coset::Header| h.counter_signatures.get(1).map(|c| c.protected.clone()))),
+        (Item::Map(vec![(Item::int(7), nested)]), Box::new(|h: &coset::Header| h.counter_signatures.first().and_then(|c| c.unprotected.counter_signatures.first()).map(|c| c.protected.clone()))),
+    ];
+    let want = model::structure("CounterSignature", &[&pb, &ps, aad, payload]);
+    let td = tuple_desc("CounterSignature", &[Some(&pb), Some(&ps), Some(aad), Some(payload)]);
+    for (k, (hitem, pick)) in headers.iter().enumerate() {
+        let hb = rcbor::encode(hitem, &mut Style::random(ctx.rng.next()));
+        let carriers: [Vec<u8>; 2] = [hb.clone(), {
+            // the header as the protected header of a COSE_Mac0
+            let mut v = vec![0x84];
+            rcbor::put_head(&mut v, 2, hb.len() as u64, &mut Style::canonical());
+            v.extend_from_slice(&hb);
+            v.extend_from_slice(&[0xa0, 0xf6, 0x40]);
+            v
+        }];
+        let decoded: Vec<Option<coset::Header>> = vec![
+            match guard(|| coset::Header::from_slice(&carriers[0])) {
+                Ok(Ok(h)) => Some(h),
+                _ => None,
+            },
+            match guard(|| coset::CoseMac0::from_slice(&carriers[1])) {
+                Ok(Ok(m)) => Some(m.protected.header),
+                _ => None,
+            },
+        ];
+        for (c, h) in decoded.into_iter().enumerate() {
+            let name = format!("decoded counter signature #{} ({}) -> sig_structure_data(CounterSignature)", k, if c == 0 { "in a header" } else { "in a protected header" });
+            match h.as_ref().and_then(|h| pick(h)) {
+                Some(cs) => {
+                    let b2 = cb.clone();
+                    match guard(|| coset::sig_structure_data(SignatureContext::CounterSignature, b2, Some(cs), aad, payload)) {
+                        Ok(got) => expect_eq(ctx, &name, &got, &want, "Sig_structure", &td),
+                        Err(p) => unexpected_panic(ctx, &name, &p.site()),
+                    }
+                }
+                None => ctx.count("decoded-countersig-rejected"),
+            }
+        }
+    }
+}
+
+/// A hand-built protected header that cannot be serialised (its extras repeat a label).  No property
+/// says what the structure functions do with it (today they panic); but if bytes come back they must
+/// not be the bytes of a *different* header - in particular not those of the empty header.
+pub fn unencodable_header_case(ctx: &mut Ctx, family: &str, aad: &[u8], payload: &[u8]) {
+    let mut h = coset::Header::default();
+    let l = coset::Label::Int(1000 + ctx.rng.below(50) as i64);
+    h.rest.push((l.clone(), coset::cbor::value::Value::Null));
+    h.rest.push((l, coset::cbor::value::Value::Bool(true)));
+    if ctx.rng.coin() {
+        h.key_id = vec![1, 2];
+    }
+    let bad = coset::ProtectedHeader { original_data: None, header: h };
+    let empty = coset::ProtectedHeader::default();
+    let run = |p: coset::ProtectedHeader| -> Option<Vec<u8>> {
+        match family {
+            "Sig_structure" => guard(|| coset::sig_structure_data(SignatureContext::CoseSign1, p, None, aad, payload)).ok(),
+            "MAC_structure" => guard(|| coset::mac_structure_data(MacContext::CoseMac0, p, aad, payload)).ok(),
+            _ => guard(|| coset::enc_structure_data(EncryptionContext::CoseEncrypt0, p, aad)).ok(),
+        }
+    };
+    ctx.eval();
+    match (run(bad), run(empty)) {
+        (Some(b), Some(e)) => {
+            ctx.count("unencodable-header-returned-bytes");
+            if b == e {
+                ctx.violation(&format!("{}/unencodable-header-collides-with-empty-header", ctx.prop), format!("a protected header that cannot be serialised yields the same {} bytes as the empty header", family), J::obj(vec![("bytes", J::Str(short(&b)))]));
+            }
+        }
+        (None, _) => ctx.count("unencodable-header-refused"),
+        _ => {}
     }
 }
 
